@@ -30,6 +30,7 @@
 #include <set>
 #include <string>
 #include <unordered_set>
+#include <memory>
 #include <vector>
 
 namespace {
@@ -58,6 +59,42 @@ struct Item
     int free_used = 0;    // non-default choices taken at blocking points (cost 0)
     int retries = 0;
     int confirm = 0;    // 1: confirmation re-run of a failing schedule
+};
+
+// Deferred frontier entries are kept compact: all alternatives found in one execution share that
+// execution's choice vectors (O(L) memory per execution instead of O(L^2) for materialised prefixes).
+static long g_frontier_bytes = 0;    // estimate of the memory held by deferred frontier entries
+struct Base
+{
+    std::vector<uint16_t> c, n;
+    long bytes = 0;
+    ~Base() { g_frontier_bytes -= bytes; }
+};
+struct Lazy
+{
+    std::shared_ptr<const Base> base;    // null: `full` holds a materialised item (root, retries)
+    uint32_t cut = 0;
+    uint16_t alt = 0;
+    uint8_t cost = 0;
+    uint16_t free_used = 0;
+    std::shared_ptr<Item> full;
+    Item make() const
+    {
+        if (!base) return *full;
+        Item it;
+        it.prefix.assign(base->c.begin(), base->c.begin() + cut);
+        it.prefix.push_back(alt);
+        it.prefix_n.assign(base->n.begin(), base->n.begin() + cut + 1);
+        it.cost = cost;
+        it.free_used = free_used;
+        return it;
+    }
+    static Lazy of(Item const& it)
+    {
+        Lazy l;
+        l.full = std::make_shared<Item>(it);
+        return l;
+    }
 };
 
 const pmc_config* g_cfg;
@@ -358,8 +395,15 @@ void explore_spec(int si, int bound, double budget, SpecStats& st, Violation& vi
     st.name = sp.name;
     st.bound_target = bound;
     double t0 = now_s(), deadline = t0 + budget;
-    std::vector<std::vector<Item>> level(bound + 2);
-    level[0].push_back(Item{});
+    std::vector<std::vector<Lazy>> level(bound + 2);
+    level[0].push_back(Lazy::of(Item{}));
+    // memory cap of the deferred frontier (bytes, estimated); beyond it alternatives of a higher deviation
+    // level than the one being explored are counted, not stored, and no further level is started
+    long& frontier_bytes = g_frontier_bytes;
+    long frontier_cap = 6L << 30;
+    frontier_bytes = 0;
+    if (const char* e = getenv("PMC_FRONTIER_CAP_MB")) frontier_cap = atol(e) * (1L << 20);
+    long dropped = 0;
     std::vector<Item> inflight(g_slots.size());
     Item first_item, last_item;
     bool have_first = false;
@@ -383,7 +427,7 @@ void explore_spec(int si, int bound, double budget, SpecStats& st, Violation& vi
         if (r->outcome == OUT_DIVERGED)
         {
             ++st.divergences;
-            if (it.retries < 2) { Item again = it; ++again.retries; level[k].push_back(again); }
+            if (it.retries < 2) { Item again = it; ++again.retries; level[k].push_back(Lazy::of(again)); }
             else ++st.inconclusive;
             return;
         }
@@ -454,21 +498,33 @@ void explore_spec(int si, int bound, double budget, SpecStats& st, Violation& vi
         else
             ++st.ok;
         // expand
+        std::shared_ptr<Base> base;
         for (int i = (int) it.prefix.size(); i < r->nchoices; ++i)
         {
             int nc = it.cost + r->cost[i];
             if (nc > bound) continue;
             int nf = it.free_used + ((r->kind[i] == CK_BLOCK && r->cost[i] == 0) ? 1 : 0);
             if (g_cfg->free_block_bound > 0 && nf > g_cfg->free_block_bound) continue;
+            if (r->n[i] < 2) continue;
+            if (nc > k && frontier_bytes > frontier_cap) { dropped += r->n[i] - 1; continue; }
+            if (!base)
+            {
+                base = std::make_shared<Base>();
+                base->c.assign(r->c, r->c + r->nchoices);
+                base->n.assign(r->n, r->n + r->nchoices);
+                base->bytes = 4L * r->nchoices + 96;
+                frontier_bytes += base->bytes;
+            }
             for (int alt = 1; alt < r->n[i]; ++alt)
             {
-                Item ni;
-                ni.free_used = nf;
-                ni.prefix.assign(r->c, r->c + i);
-                ni.prefix.push_back((uint16_t) alt);
-                ni.prefix_n.assign(r->n, r->n + i + 1);
-                ni.cost = nc;
+                Lazy ni;
+                ni.base = base;
+                ni.cut = (uint32_t) i;
+                ni.alt = (uint16_t) alt;
+                ni.cost = (uint8_t) nc;
+                ni.free_used = (uint16_t) nf;
                 level[nc].push_back(std::move(ni));
+                frontier_bytes += sizeof(Lazy);
             }
         }
     };
@@ -485,8 +541,9 @@ void explore_spec(int si, int bound, double budget, SpecStats& st, Violation& vi
                 Slot& s = g_slots[i];
                 if (!s.busy && !level[k].empty() && !stop && !out_of_time)
                 {
-                    inflight[i] = std::move(level[k].back());
+                    inflight[i] = level[k].back().make();
                     level[k].pop_back();
+                    frontier_bytes -= sizeof(Lazy);
                     submit(s, si, inflight[i], 0, 1);
                 }
                 if (s.busy) any_busy = true;
@@ -514,8 +571,10 @@ void explore_spec(int si, int bound, double budget, SpecStats& st, Violation& vi
         if (out_of_time && !level[k].empty()) break;
         if (level[k].empty()) st.bound_completed = k;
         if (out_of_time) break;
+        if (dropped) break;    // the next level is incomplete: do not start it
     }
     for (auto& l : level) st.frontier_left += (long) l.size();
+    st.frontier_left += dropped;
     st.exhaustive = !stop && st.bound_completed == bound && st.inconclusive == 0 && st.overflow == 0;
     // replay self-test: first and last schedule twice, identical event hashes
     if (!stop && have_first)
